@@ -559,6 +559,22 @@ def bounded_native(ck):
                                   "input": {"version": ver, "beta": bset.tolist(), "log_e_nu": le.tolist(), "u": uu.tolist()}, "observed": {"code": np.asarray(got, float).tolist(), "spec": np.asarray(want, float).tolist()}})
             except Exception as ex:
                 fails.append({"obligation": "bounded.tau_energy", "clause": "a batch without any in-range angle is evaluated", "input": {"version": ver, "beta": bset.tolist()}, "observed": "raised %r" % ex})
+        # history on one object and one array object: the exit-probability look-up runs first on an angle buffer, the buffer is refilled in place,
+        # then the energies are sampled from it -- the energies are those of the angles the buffer holds NOW
+        buf = np.array([0.3, 0.0005, np.radians(43.0), 0.6, 0.1])
+        le_h, uu_h = np.array([8.0, 9.0, 8.5, 10.0, 7.5]), np.array([0.3, 0.6, 0.45, 0.2, 0.8])
+        n += 1
+        try:
+            th = fresh_taus(ver)
+            th.tau_exit_prob(buf, le_h.copy())
+            buf[:] = np.array([0.0005, 0.5, 0.2, np.radians(43.0), 0.7])
+            got = np.asarray(th.tau_energy(buf, le_h.copy(), uu_h.copy()), dtype=float)
+            want = np.asarray(spec_tau_energy({"tables": nt, "beta": buf.copy(), "logE": le_h, "u": uu_h}), dtype=float)
+            if got.shape != want.shape or not np.allclose(got, want, rtol=1e-9):
+                fails.append({"obligation": "bounded.tau_energy", "clause": "tau_energy after tau_exit_prob on the same (refilled) angle buffer samples for the angles the buffer holds at the call",
+                              "input": {"version": ver, "history": "tau_exit_prob(buf, E); buf[:] = new angles; tau_energy(buf, E, u)", "beta now": buf.tolist(), "log_e_nu": le_h.tolist(), "u": uu_h.tolist()}, "observed": {"code": got.tolist(), "spec": want.tolist()}})
+        except Exception as ex:
+            fails.append({"obligation": "bounded.tau_energy", "clause": "tau_energy after tau_exit_prob on the same (refilled) angle buffer is evaluated", "input": {"version": ver}, "observed": "raised %r" % ex})
         # single-precision angles (below, inside and above the table) give what the same values give in double precision
         b32 = np.array([0.0005, 0.0012, 0.3, 0.6, 0.75], dtype=np.float32)
         le32, uu32 = np.array([7.5, 9.0, 8.0, 10.0, 9.0]), np.array([0.3, 0.6, 0.5, 0.2, 0.8])
